@@ -249,3 +249,17 @@ Definition sd_attr_lookup (members : list (list Z * list Z * Z)) (attrname : lis
   | Some m => Some (snd m)
   | None => None
   end.
+
+(* ---- hdatainfo.c VSgetattdatainfo: the search through the attribute list -- a pointer stepped entry by entry until
+        the attrindex-th entry of the wanted owner (the owner test is regenerated from the source; FmtProofs pins
+        "vs_alist++" as the step and "vs_alist->aref" as the entry that is attached afterwards) ------------------- *)
+Fixpoint vs_att_loop (rest : list vattr) (findex attrindex a_index : Z) : option vattr :=
+  match rest with
+  | [] => None
+  | e :: t =>
+    if VSgetattdatainfo_owner_test (va_findex e) findex =? 0 then vs_att_loop t findex attrindex a_index
+    else if a_index + 1 =? attrindex then Some e
+    else vs_att_loop t findex attrindex (a_index + 1)
+  end.
+Definition vs_getattdatainfo_entry (alist : list vattr) (findex attrindex : Z) : option vattr :=
+  if attrindex <? 0 then None else vs_att_loop alist findex attrindex (-1).
